@@ -56,6 +56,9 @@ PROPS = {
         "modelled": "tcpConn/wsConn reading, writing, OnPacket goroutines and Close; client connection slot across recovery",
     },
     "C17": {
+        "trusted_extra": [
+            "harness/cmd/vaccess (Go, go/types + source importer over /repo/go/client): regenerates coq/Gen/Access.v; its lock tracking (per block, branch meets, deferred closures without local locks), call-graph fixpoint for locks held at entry, interface-call resolution, set-up phase table and single-instance goroutine table are trusted",
+            "the Go race detector (go build -race) for the dynamic search; reports are attributed to the library when both access stacks contain a library frame"],
         "race": True,
         "crash_is_violation": True,
         "design_ref": "DESIGN.md section 6 (C17)",
@@ -241,7 +244,7 @@ def evidence(prop, cfg, tier, seed, wall, proof, stats, corr, viols, known_hits,
               prop, ("axioms: " + ", ".join(proof["assumptions"])) if proof["assumptions"]
               else "%d x 'Closed under the global context' (no axioms)" % proof.get("closed_count", 0)),
           TRANSLATOR, EXTRACTION, HARNESS,
-          "modelled, not verified: " + cfg.get("modelled", "")]
+          "modelled, not verified: " + cfg.get("modelled", "")] + list(cfg.get("trusted_extra", []))
     if proof.get("coqchk"):
         tb.append("coqchk -silent -o: %s; axioms reported: %s" % (
             "ok" if proof["coqchk"]["ok"] else "FAILED", ", ".join(proof["coqchk"]["axioms"]) or "none"))
